@@ -3,6 +3,9 @@ import Tdms.Model.Data
 import Tdms.Model.Lazy
 import Tdms.Model.Timestamp
 import Tdms.Model.Path
+import Tdms.Model.Writer
+import Tdms.Spec.Parse
+import Tdms.Model.Defrag
 
 /-!
 # Line protocol of the model executable
@@ -347,6 +350,151 @@ def cmdPathDec (args : List String) : String :=
     | none => jObj [("ok", "false"), ("err", jStr "parse")]
   | _ => jObj [("ok", "false"), ("err", jStr "parse")]
 
+/-! ## writer (C07, C08, C10) -/
+
+open Tdms.Model.Writer in
+def tPyVal : T PyVal := do
+  let t ← tok
+  match t.splitOn ":" with
+  | ["i", v] => match v.toInt? with | some i => pure (.int i) | none => failure
+  | ["f", h] => match ofHex h with | some b => pure (.float b) | none => failure
+  | ["b", v] => pure (.bool (v = "1"))
+  | ["s", h] => match ofHex h with | some b => pure (.str b) | none => failure
+  | ["d", v] => match v.toInt? with | some i => pure (.datetime i) | none => failure
+  | ["t", a, b] => match a.toInt?, b.toNat? with | some x, some y => pure (.rawTimestamp x y) | _, _ => failure
+  | ["n", c, h] => match c.toNat?, ofHex h with | some x, some y => pure (.typed x y) | _, _ => failure
+  | _ => failure
+
+open Tdms.Model.Writer in
+def tWProp : T WProp := do
+  let name ← tHex
+  let v ← tPyVal
+  pure ⟨name, v⟩
+
+/-- numpy kind (e.g. "i4") -> TDMS type code through `numpy_data_types` (generated table) -/
+def kindToType (kind : String) : Option Nat :=
+  (Tdms.Generated.typeTable.find? fun t => t.npKind = some kind ∧ t.inNumpyTable).map (·.code)
+
+def intKindOfDtype (dt : String) : String :=
+  match dt with
+  | "int8" => "i1" | "uint8" => "u1" | "int16" => "i2" | "uint16" => "u2"
+  | "int32" => "i4" | "uint32" => "u4" | "int64" => "i8" | "uint64" => "u8" | _ => "?"
+
+open Tdms.Model.Writer in
+/-- channel data as the writer sees it after `_to_np_array` and `data_type`:
+    `K kind n vals…` numpy array; `S n strs…` strings; `D n micros…` datetimes; `L n ints…` list of Python
+    ints (dtype inferred by the model); `E` empty array of undeterminable type -/
+def tWData : T WData := do
+  let k ← tok
+  match k with
+  | "K" => do
+    let kind ← tok
+    let vals ← tCounted tHex
+    match kindToType kind with
+    | some ty => pure ⟨ty, vals⟩
+    | none => failure
+  | "S" => do
+    let vals ← tCounted tHex
+    pure ⟨if vals.isEmpty then tyVoid else tyString, vals⟩
+  | "D" => do
+    let n ← tNat
+    let us ← tMany (do let t ← tok; match t.toInt? with | some i => pure i | none => failure) n
+    pure ⟨if us.isEmpty then tyVoid else tyTimeStamp, us.map fun u =>
+      let (s, f) := Tdms.Model.Timestamp.encodeFloor (u - epochMicros)
+      Tdms.Model.Timestamp.toBytesLE s f⟩
+  | "L" => do
+    let n ← tNat
+    let xs ← tMany (do let t ← tok; match t.toInt? with | some i => pure i | none => failure) n
+    let kind := intKindOfDtype (inferDtype xs)
+    match kindToType kind with
+    | some ty =>
+      let w := (typeSize ty).getD 1
+      pure ⟨ty, xs.map fun x => encLE w (ofSigned w x)⟩
+    | none => failure
+  | "E" => pure ⟨tyVoid, []⟩
+  | _ => failure
+
+open Tdms.Model.Writer in
+def tWObj : T WObj := do
+  let k ← tok
+  match k with
+  | "R" => do pure (.root (← tCounted tWProp))
+  | "G" => do
+    let g ← tHex
+    pure (.group g (← tCounted tWProp))
+  | "C" => do
+    let g ← tHex
+    let c ← tHex
+    let d ← tWData
+    let props ← tCounted tWProp
+    pure (.channel g c d props)
+  | _ => failure
+
+/-- `write <version> <nsessions> {<nsegments> {<nobjects> {object}}}` -/
+def cmdWrite (args : List String) : String :=
+  let p : T (Nat × List (List (List Tdms.Model.Writer.WObj))) := do
+    let v ← tNat
+    let prog ← tCounted (tCounted (tCounted tWObj))
+    pure (v, prog)
+  match p.run args with
+  | some ((v, prog), []) =>
+    match Tdms.Model.Writer.writeProgram v prog with
+    | some (d, i) => jObj [("ok", "true"), ("data", jHex d), ("index", jHex i)]
+    | none => jObj [("ok", "false"), ("err", jStr "duplicate")]
+  | _ => jObj [("ok", "false"), ("err", jStr "parse")]
+
+/-- `strict <hexdata> <hexindex|->` : the strict structural parser on bytes a writer emitted -/
+def cmdStrict (args : List String) : String :=
+  match args with
+  | [d, i] =>
+    match ofHex d, (if i = "-" then some none else (ofHex i).map some) with
+    | some data, some index =>
+      match Tdms.Strict.checkWritten data index with
+      | .ok segs => jObj [("ok", "true"), ("segments", jNat segs.length),
+          ("objects", jArr (segs.map fun s => jArr (s.objs.map fun o =>
+            jObj [("path", jHex o.path),
+                  ("idx", jOpt (fun (x : Nat × Nat × Option Nat) => jArr [jNat x.1, jNat x.2.1, jOpt jNat x.2.2]) o.idx),
+                  ("props", jArr (o.props.map fun (n, t, v) => jArr [jHex n, jNat t, jHex v]))])))]
+      | .error e => jObj [("ok", "false"), ("issue", jStr ((reprStr e).replace "Tdms.Strict.Issue." ""))]
+    | _, _ => jObj [("ok", "false"), ("issue", jStr "parse")]
+  | _ => jObj [("ok", "false"), ("issue", jStr "parse")]
+
+/-- `infer i1,i2,…` : `_infer_dtype` on a list of Python ints -/
+def cmdInfer (args : List String) : String :=
+  match args with
+  | [l] =>
+    match (l.splitOn ",").mapM (·.toInt?) with
+    | some xs => jStr (Tdms.Model.Writer.inferDtype xs)
+    | none => jStr "parse"
+  | _ => jStr "parse"
+
+/-- `defrag <hex> <version>` -/
+def cmdDefrag (args : List String) : String :=
+  match args with
+  | [h, v] =>
+    match ofHex h, v.toNat? with
+    | some f, some ver =>
+      match Tdms.Model.defragment f ver with
+      | some (d, i) => jObj [("ok", "true"), ("data", jHex d), ("index", jHex i)]
+      | none => jObj [("ok", "false")]
+    | _, _ => jObj [("ok", "false"), ("err", jStr "parse")]
+  | _ => jObj [("ok", "false"), ("err", jStr "parse")]
+
+/-- `layout <hex>` : groups and channels as `TdmsFile._read_file` arranges them -/
+def cmdLayout (args : List String) : String :=
+  match args with
+  | [h] =>
+    match ofHex h with
+    | some f =>
+      match readMetadata f with
+      | .ok st =>
+        match Tdms.Model.fileLayout st.objects with
+        | some gs => jObj [("ok", "true"), ("groups", jArr (gs.map fun g => jArr [jHex g.name, jArr (g.channels.map fun c => jHex c.1)]))]
+        | none => jObj [("ok", "false"), ("err", jStr "badPath")]
+      | .error e => jErr e
+    | none => jObj [("ok", "false"), ("err", jStr "parse")]
+  | _ => jObj [("ok", "false"), ("err", jStr "parse")]
+
 def dispatchBase (cmd : String) (args : List String) : Option String :=
   match cmd with
   | "enc" => some (cmdEnc args)
@@ -359,6 +507,11 @@ def dispatchBase (cmd : String) (args : List String) : Option String :=
   | "tsdec" => some (cmdTsDec args)
   | "pathenc" => some (cmdPathEnc args)
   | "pathdec" => some (cmdPathDec args)
+  | "write" => some (cmdWrite args)
+  | "strict" => some (cmdStrict args)
+  | "infer" => some (cmdInfer args)
+  | "defrag" => some (cmdDefrag args)
+  | "layout" => some (cmdLayout args)
   | "ping" => some (jObj [("ok", "true")])
   | _ => none
 
